@@ -428,6 +428,62 @@ impl Bus {
     }
 }
 
+/// Verification hook: the private registers of the [`Bus`] as plain data
+/// (RAM and the board are reachable through the ordinary accessors).
+#[cfg(any(kani, feature = "verif-hooks"))]
+#[derive(Debug, Clone, Copy, PartialEq, Eq)]
+pub struct VerifBusParts {
+    pub input_reg: [u8; 4],
+    pub output_reg: [u8; 2],
+    pub micr: u8,
+    pub misr: u8,
+    pub ucr: u8,
+    pub usr: u8,
+    pub uart_send: u8,
+    pub uart_recv: u8,
+    pub timer_enabled: bool,
+    pub timer_div1: usize,
+    pub timer_div2: usize,
+    pub timer_div3: usize,
+}
+
+#[cfg(any(kani, feature = "verif-hooks"))]
+impl Bus {
+    /// Verification hook: read all private registers.
+    pub fn verif_parts(&self) -> VerifBusParts {
+        VerifBusParts {
+            input_reg: self.input_reg,
+            output_reg: self.output_reg,
+            micr: self.micr.bits(),
+            misr: self.misr.bits(),
+            ucr: self.ucr.bits(),
+            usr: self.usr.bits(),
+            uart_send: self.uart_send,
+            uart_recv: self.uart_recv,
+            timer_enabled: self.int_timer.enabled,
+            timer_div1: self.int_timer.div1,
+            timer_div2: self.int_timer.div2,
+            timer_div3: self.int_timer.div3,
+        }
+    }
+    /// Verification hook: overwrite all private registers (bits outside the
+    /// defined flags are dropped, exactly as the real write paths do).
+    pub fn verif_assemble(&mut self, parts: VerifBusParts) {
+        self.input_reg = parts.input_reg;
+        self.output_reg = parts.output_reg;
+        self.micr = MICR::from_bits_truncate(parts.micr);
+        self.misr = MISR::from_bits_truncate(parts.misr);
+        self.ucr = UCR::from_bits_truncate(parts.ucr);
+        self.usr = USR::from_bits_truncate(parts.usr);
+        self.uart_send = parts.uart_send;
+        self.uart_recv = parts.uart_recv;
+        self.int_timer.enabled = parts.timer_enabled;
+        self.int_timer.div1 = parts.timer_div1;
+        self.int_timer.div2 = parts.timer_div2;
+        self.int_timer.div3 = parts.timer_div3;
+    }
+}
+
 impl Ram {
     /// Initialize a new set of Ram.
     ///
